@@ -389,6 +389,25 @@ theorem C02_slice_sound (n : Nat) (a b c : Option Int) :
     (c.getD 1 ≠ 0 → ∃ sel, sliceIndices n a b c = .ok sel ∧ sel.Nodup ∧ ∀ x ∈ sel, x < n) :=
   sliceIndices_sound n a b c
 
+/-- **Defect (memory layout of the index object).**  The same selection is refused when the integer index array is
+byte-swapped, and a mask is refused when it is read-only (typed memoryviews), although numpy selects with both; in the
+native layout `getitemL` is `getitem`, to which all refinement theorems apply. -/
+theorem C02_getitem_layout_defect (s : BL) :
+    (∀ is sel, normArr s.n is = some sel → getitemL s (.arr is) .byteSwapped = .err .valueError) ∧
+    (∀ m, getitemL s (.mask m) .readOnly = .err .valueError) ∧
+    (∀ ix, getitemL s ix .native = getitem s ix) := by
+  refine ⟨fun is sel h => by simp [getitemL, h], fun m => rfl, fun ix => rfl⟩
+
+/-- A refused call changes nothing: whenever an operation does not succeed (exception, crash), the history goes on
+from exactly the same pair of lists.  (For the real objects the oracle replays every refused call on the objects the
+history continues with and compares all views, the cached maximum and the arguments with their snapshots.) -/
+theorem C02_refused_call_changes_nothing (st : State) (op : Op) (h : ∀ st', apply st op ≠ .ok st') :
+    step st op = st := by
+  unfold step
+  split
+  · rename_i st' h'; exact absurd h' (h st')
+  · rfl
+
 /-! ## The remaining views as functions of the map
 
 In the model every view is a *value* computed from the state at call time (`getBonds s i`, `getAllBonds s`,
